@@ -13,7 +13,7 @@ for d in seeded/*; do
   git -C $WT apply $PWD/$d/patch.diff 2>/dev/null || { echo "$id: APPLY-FAILED"; missed=1; continue; }
   r=$(VERIF_REPO=$WT VERIF_TAG=archive ./check $prop 2>&1 | grep -E "^(OK|VIOLATION)" | tail -1 | cut -c1-120)
   echo "$id: $r"
-  case "$r" in VIOLATION*) ;; *) missed=1;; esac
+  case "$r" in VIOLATION*) ;; *) if grep -q '"outside_modelled_environment": true' $d/meta.json; then echo "   ($id needs an environment the machinery does not model, see its meta.json: not counted)"; else missed=1; fi;; esac
 done
 git -C /repo worktree remove --force $WT
 rm -rf build/*_archive
